@@ -2,6 +2,7 @@ import PyAirtouch.Util.Hex
 import PyAirtouch.Spec.Crc
 import PyAirtouch.Spec.Trace
 import PyAirtouch.Spec.TraceParse
+import PyAirtouch.Spec.Heartbeat
 /-! Line-protocol oracle over the *specification* only (never imports Gen or Model). -/
 open PyAirtouch PyAirtouch.Util PyAirtouch.Spec
 
@@ -16,6 +17,10 @@ def answer (st : OState) (ws : List String) : OState × String :=
     match parseHex h with
     | some bs => (st, toHex (checkBytes bs))
     | none => (st, "bad-op")
+  | "hbmon" :: i :: t :: rest =>
+    match i.toNat?, t.toNat?, (Heartbeat.splitSemi rest).mapM Heartbeat.parseHEv with
+    | some i, some t, some evs => (st, b2s (Heartbeat.c08 i t evs))
+    | _, _, _ => (st, "bad-op")
   | ["trace-begin"] => ({ st with trace := [] }, "ok")
   | "ev" :: rest =>
     match Trace.parseEv rest with
